@@ -205,7 +205,21 @@ class Series:
         cs[0 - lo] = cs[0 - lo] + const
         return Series(self.var, lo, cs)
 
+    def _log(self):
+        """log of a series; a non-zero valuation v contributes v * ln(x) with the atom ln(<indeterminate>)"""
+        from . import vnp
+
+        if self.val != 0:
+            unit = Series(self.var, 0, list(self.c))
+            return unit._log() + self.val * T.app("ln", T.var(self.var))
+        c0 = self.c[0]
+        if _is_exact_zero(c0):
+            raise Unsupported("log of a series with vanishing leading coefficient")
+        return self._compose(vnp.log(c0), lambda s: s.inverse())
+
     def _regular(self, what):
+        if what == "log":
+            return None
         if self.val < 0:
             raise Unsupported(f"{what} of a series with negative valuation")
         # constant term and remainder
@@ -237,9 +251,7 @@ class Series:
                 e.append(acc / k)
             return Series(self.var, 0, e)
         if name == "log":
-            if _is_exact_zero(c0):
-                raise Unsupported("log of a series without constant term")
-            return self._compose(vnp.log(c0), lambda s: s.inverse())
+            return self._log()
         if name == "arctan":
             return self._compose(vnp.arctan(c0), lambda s: (1 + s * s).inverse())
         if name == "sqrt":
